@@ -1131,6 +1131,9 @@ def part_put(ctx, tmp):
 def part_short_write(ctx, tmp):
     """direct_write on a nearly full 16 KiB tmpfs: write(2) of the padded buffer comes back short."""
     from katdal.chunkstore import npy_header_and_body
+    if getattr(ctx, '_c08_short_write_done', False):
+        return          # already run as the witness of C08-F5e in this check
+    ctx._c08_short_write_done = True
     mnt = tmp + '/tmpfs'
     os.makedirs(mnt, exist_ok=True)
     r = subprocess.run(['mount', '-t', 'tmpfs', '-o', 'size=16k', 'tmpfs', mnt], capture_output=True, text=True)
@@ -1161,9 +1164,13 @@ def part_short_write(ctx, tmp):
                          [exp[0], len(exp[1][0]) if exp[1] else None, len(exp[2][0]) if exp[2] else None],
                          'outcome of a short write differs from the model', kind='tie')
         if fin and bytes(fin[0]) != new_bytes:
-            y = np.load(finaln) if True else None
-            ctx.disagree('store=npy;direct_write;fault=short_write;symptom=zero_padded_chunk_published', case,
-                         dict(report=rep, final_size=len(fin[0]), wrong_elements=int(np.sum(y != new)) if y.shape == new.shape else -1),
+            try:
+                y = np.load(finaln)
+                wrong = int(np.sum(y != new)) if y.shape == new.shape else -1
+            except Exception:
+                wrong = -2          # not even loadable
+            ctx.disagree('store=npy;direct_write;fault=short_write;symptom=%s' % ('zero_padded_chunk_published' if wrong > -2 else 'damaged_chunk_published'), case,
+                         dict(report=rep, final_size=len(fin[0]), wrong_elements=wrong),
                          'final absent, error reported',
                          'a short write was padded with zeros by ftruncate and renamed onto the final name: a reader gets wrong data')
         if not fin and (rep is None or rep[1] == 'builtins.NoneType'):
@@ -1200,10 +1207,11 @@ def part_short_write(ctx, tmp):
             if rep is None and direct:
                 ctx.count('direct_write_unsupported')
                 continue
-            if state != ('old' if with_old else 'absent'):
-                ctx.disagree(sig + 'final_' + state, case, state, 'old' if with_old else 'absent',
-                             'a put on a full file system left neither the previous state under the final name')
-            if rep is None or rep[1] == 'builtins.NoneType' or rep[0] != 'returned':
+            prev = 'old' if with_old else 'absent'
+            if state not in (prev, 'new'):
+                ctx.disagree(sig + 'final_' + state, case, state, [prev, 'new'],
+                             'a put on a full file system left neither the previous state nor the complete new chunk under the final name')
+            if rep is None or rep[0] != 'returned' or (rep[1] == 'builtins.NoneType' and state != 'new'):
                 ctx.disagree(sig + 'failure_swallowed', case, rep, 'a returned error object', 'failed put (ENOSPC inside the body) not reported')
             ctx.note_case(('short_write', direct, with_old), nontrivial=True, sample=dict(case, report=rep, final=state))
             ctx.count('short_write_cases')
